@@ -80,7 +80,19 @@ func (sr *SelectRelation) Materialize(aggRunner *AggRunner, catDir *catalog.Dire
 	}
 
 	// Check for the early "always false predicate" case
-	for _, sp := range sr.StaticPredicates {
+	for name, sp := range sr.StaticPredicates {
+		if name == "Epoch" && sp.ContentsEnum.IsSet(MINBOUND) && sp.ContentsEnum.IsSet(MAXBOUND) {
+			// Epoch literals may be given in seconds or nanoseconds: compare the bounds in one unit
+			// (a lower bound in nanoseconds and an upper bound in seconds is not an empty range)
+			minVal, err1 := io.GetValueAsInt64(sp.min)
+			maxVal, err2 := io.GetValueAsInt64(sp.max)
+			if err1 == nil && err2 == nil {
+				if convertUnitToNanosec(minVal) > convertUnitToNanosec(maxVal) {
+					return io.NewColumnSeries(), nil // Return an empty set
+				}
+				continue
+			}
+		}
 		if sp.IsFalse() {
 			return io.NewColumnSeries(), nil // Return an empty set
 		}
